@@ -40,6 +40,13 @@ def _normalise_guards(stmts: List[ast.stmt]) -> List[ast.stmt]:
                 st.orelse = st.orelse + _normalise_guards(stmts[i + 1:])
                 out.append(st)
                 return out
+        if isinstance(st, (ast.For, ast.While)) and not st.orelse and _has_return_list(st.body) and _loop_returns_ok(st):
+            # search loop:  for ..: if c: return V  / REST   ==   for ..: if c: return V  / else: REST   (no break in the loop, so
+            # the else clause runs exactly when the loop runs to its end, which is when REST ran)
+            st.orelse = _normalise_guards(stmts[i + 1:])
+            st._search_loop = True
+            out.append(st)
+            return out
         if isinstance(st, ast.If):
             st.body = _normalise_guards(st.body)
             st.orelse = _normalise_guards(st.orelse)
@@ -47,6 +54,45 @@ def _normalise_guards(stmts: List[ast.stmt]) -> List[ast.stmt]:
                 st.orelse = _normalise_guards(stmts[i + 1:])
                 out.append(st)
                 return out
+        out.append(st)
+    return out
+
+
+def _loop_returns_ok(loop) -> bool:
+    """Every return inside the loop is reached through if / with nesting only (a `break` put in its place leaves this very loop),
+    and the loop has no break of its own."""
+    def ok(stmts):
+        for st in stmts:
+            if isinstance(st, (ast.Break,)):
+                return False
+            if isinstance(st, (ast.For, ast.While, ast.Try, ast.FunctionDef, ast.AsyncFunctionDef, ast.ClassDef, ast.Match)):
+                if _has_return(st) or isinstance(st, ast.Try) and any(isinstance(x, ast.Break) for x in ast.walk(st)):
+                    return False
+                continue
+            if isinstance(st, ast.If):
+                if not ok(st.body) or not ok(st.orelse):
+                    return False
+            elif isinstance(st, ast.With):
+                if not ok(st.body):
+                    return False
+        return True
+    return ok(loop.body)
+
+
+def _loop_subst(stmts, make):
+    out = []
+    for st in stmts:
+        if isinstance(st, ast.Return):
+            rep = make(st.value)
+            out.extend(rep)
+            if not (rep and isinstance(rep[-1], ast.Return)):
+                out.append(ast.copy_location(ast.Break(), st))
+            continue
+        if isinstance(st, ast.If):
+            st.body = _loop_subst(st.body, make) or [ast.copy_location(ast.Pass(), st)]
+            st.orelse = _loop_subst(st.orelse, make)
+        elif isinstance(st, ast.With):
+            st.body = _loop_subst(st.body, make) or [ast.copy_location(ast.Pass(), st)]
         out.append(st)
     return out
 
@@ -78,6 +124,8 @@ def _tail_only(stmts) -> bool:
             return True
         if isinstance(st, ast.If):
             return _tail_only(st.body) and _tail_only(st.orelse)
+        if isinstance(st, (ast.For, ast.While)) and getattr(st, "_search_loop", False):
+            return _tail_only(st.orelse)
         if isinstance(st, ast.With):
             return _tail_only(st.body)
         if isinstance(st, ast.Try) and not st.finalbody:
@@ -98,6 +146,10 @@ def _subst_returns(stmts, make, need_value):
         out.extend(make(last.value))
     elif isinstance(last, ast.If):
         last.body = _subst_returns(last.body, make, need_value) or [ast.copy_location(ast.Pass(), last)]
+        last.orelse = _subst_returns(last.orelse, make, need_value)
+        out.append(last)
+    elif isinstance(last, (ast.For, ast.While)) and getattr(last, "_search_loop", False):
+        last.body = _loop_subst(last.body, make) or [ast.copy_location(ast.Pass(), last)]
         last.orelse = _subst_returns(last.orelse, make, need_value)
         out.append(last)
     elif isinstance(last, ast.With):
@@ -178,7 +230,7 @@ class Inliner:
             if q is None:
                 return None
         fi = self.p.functions[q]
-        if fi.decorators or fi.node.args.vararg or fi.node.args.kwarg:
+        if [d for d in fi.decorators if d != "staticmethod"] or fi.node.args.vararg or fi.node.args.kwarg:
             return None
         if any(isinstance(x, (ast.Yield, ast.YieldFrom, ast.Global, ast.Nonlocal)) for x in ast.walk(fi.node)):
             return None
